@@ -20,6 +20,7 @@ CONSTANTS MaxN,        \* bound on leaves ever added
           MaxProbe,    \* number of queries (Prove + Verify everywhere) recorded inside a history
           Acts,        \* enabled actions: subset of {"mod","undo","prove","restore","enc"}
           MaxPerm,     \* request orders: all permutations up to this size
+          TrackUndone, \* TRUE: which block was undone stays part of the state for one more block (see Undo)
           MinN,        \* wide configurations: every state with MinN <= n <= MaxN - MaxAdds and at most
           InitLive     \* InitLive live leaves is an initial state (InitLive >= 99: start from the empty accumulator)
 
@@ -109,7 +110,7 @@ InitHist(x, lv) ==
   (IF x = 0 THEN <<>> ELSE <<ModStepAt(0, {}, <<>>, x, NoEnc)>>)
     \o (IF dead = {} THEN <<>> ELSE <<ModStepAt(x, 0..(x - 1), AscSeq(dead), 0, NoEnc)>>)
 
-Init == /\ stack = <<>> /\ marks = [und |-> 0, rst |-> 0, probe |-> 0]
+Init == /\ stack = <<>> /\ marks = [und |-> 0, rst |-> 0, probe |-> 0, undone |-> <<>>, trail |-> 0]
         /\ IF InitLive >= 99
            THEN n = 0 /\ live = {} /\ hist = <<>>
            ELSE /\ n \in MinN..(MaxN - MaxAdds)     \* room for one full block
@@ -134,7 +135,9 @@ Modify ==
             IN  /\ n' = n2
                 /\ live' = lv2
                 /\ stack' = Push([n |-> n, live |-> live])
-                /\ marks' = marks
+                /\ marks' = IF marks.undone = <<>> THEN marks
+                            ELSE IF marks.trail = 0 THEN [marks EXCEPT !.trail = 1]
+                            ELSE [marks EXCEPT !.undone = <<>>, !.trail = 0]
                 /\ hist' = Append(hist, step)
                 /\ Emit(step, Obs(n2, lv2))
 
@@ -147,7 +150,14 @@ Undo ==
      IN  /\ n' = prev.n
          /\ live' = prev.live
          /\ stack' = Tail(stack)
-         /\ marks' = [marks EXCEPT !.und = @ + 1]
+         \* Undoing different blocks leads to the same abstract state but may leave an
+         \* implementation in different hidden states (rebuilt nodes, flags).  With
+         \* TrackUndone the undone block stays part of the state until one further
+         \* block has been applied, so that every (undone block, next block) pair is
+         \* continued and queried - not only the first witness found.
+         /\ marks' = [marks EXCEPT !.und = @ + 1,
+                                   !.undone = IF TrackUndone THEN <<prev.live \ live, n - prev.n>> ELSE <<>>,
+                                   !.trail = 0]
          /\ hist' = Append(hist, step)
          /\ Emit(step, Obs(prev.n, prev.live))
 
